@@ -24,11 +24,15 @@ def differential(ctx, cases, label, compare_bytes=True, release=False, model_fil
     mcases = [c for c in cases if model_filter is None or model_filter(c)]
     model = run_model(ctx, mcases, release=release)
     mism = []
+    timeouts = []
     for c in mcases:
         i = impl.get(c.cid)
         m = model.get(c.cid)
         if i is None or m is None:
             mism.append((c, i, m, "missing result"))
+            continue
+        if m[0] == "ModelTimeout":
+            timeouts.append(c)          # the model's cost on this input exceeds the per-case limit: not compared
             continue
         icls = i[0]
         if icls == "Abort":
@@ -40,6 +44,8 @@ def differential(ctx, cases, label, compare_bytes=True, release=False, model_fil
     ctx.oblige("correspondence[%s]: model = implementation on %d cases (%s profile)" % (label, len(mcases), "release" if release else "debug"),
                not mism,
                "; ".join("%s tags=%s impl=%s model=%s (%s)" % (c.cid, ",".join(c.tags), i and i[0], m and m[0], why) for c, i, m, why in mism[:5]))
+    if timeouts:
+        ctx.notes.append("model evaluation exceeded the per-case time limit on %d case(s) (not compared): %s" % (len(timeouts), ", ".join("%s[%s]" % (c.cid, ",".join(c.tags)) for c in timeouts[:5])))
     return impl, model, mism
 
 
